@@ -47,6 +47,7 @@ class World(object):
         self.net_rng = random.Random(seed * 7919 + 17)
         self.hosts = []
         self.groups = None           # host idx -> partition group, or None
+        self.cuts = set()            # pairs (a, b) of hosts that cannot reach each other (black hole)
         self.probes = {}
         self.faults = {}
         self.nfaults = 0
@@ -104,6 +105,8 @@ class World(object):
         self.nfaults += n
 
     def blocked(self, a, b):
+        if self.cuts and ((a, b) in self.cuts or (b, a) in self.cuts):
+            return True
         g = self.groups
         if g is None:
             return False
@@ -122,6 +125,11 @@ class World(object):
         h.rng = random.Random(self.seed * 1000003 + i * 1009 + h.inc)
         self.cur = i
         CTX.world = self
+        # an orphaned fork child of the previous incarnation finishes before the new process gets to
+        # write a dump of its own (two writers of the same '<dump>.tmp' are outside the crash model)
+        for pid in h.forkemu.pending_children():
+            while h.forkemu.child_step(h.fs, pid):
+                self.probe('orphan_child_op_before_restart')
         try:
             h.node = self.app.make_node(self, h)
         except HarnessError:
@@ -227,8 +235,12 @@ class World(object):
         elif kind == 'part':
             self.groups = list(ev[2])
             self.fault('partition')
+        elif kind == 'cut':
+            self.cuts.add((ev[2], ev[3]))
+            self.fault('blackhole_pair')
         elif kind == 'heal':
             self.groups = None
+            self.cuts = set()
             for p in self.net.pipes.values():
                 p.held = False
             self.fault('heal')
@@ -281,6 +293,10 @@ class World(object):
                 self.cur = h.idx
                 h.forkemu.child_step(h.fs, pids[0])
                 self.probe('fork_child_op')
+                if h.doomed:
+                    # the kill point chosen for the parent fell on this storage op of its child
+                    self._finish_kill(h)
+                    out = 'died'
         elif kind == 'jump':
             h = self.hosts[ev[2]]
             h.off += ev[3]
